@@ -1351,11 +1351,18 @@ func Compose(ps []*Program) *Program {
 		for _, pr := range p.Procs {
 			tops = append(tops, pr.Names...)
 		}
+		execOff := len(out.Execs)
 		for _, pr := range p.Procs {
 			reTy(pr.T)
 			reTerm(pr.Body)
 			for _, n := range tops {
 				renameFree(pr.Body, n, n+sfx)
+			}
+			// the i-th exec of this component is the (execOff+i)-th of the composition
+			if execOff > 0 {
+				for i := len(p.Execs); i >= 1; i-- {
+					renameFree(pr.Body, fmt.Sprintf("exec%d", i), fmt.Sprintf("exec%d", execOff+i))
+				}
 			}
 			for j := range pr.Names {
 				pr.Names[j] += sfx
